@@ -30,7 +30,7 @@ theorem handlesList_insertNsKidH_filter (p ns fresh b : Nat) (hb : b ≤ fresh) 
       · obtain ⟨q, x, rfl⟩ := hv
         by_cases hq : (q == p) = true
         · simp [insertNsKidH, HTree.value, hq, handlesList, handles, HTree.handle, HTree.kids]
-        · simp only [insertNsKidH, HTree.value, hq, Bool.false_eq_true, if_false, handlesList_cons,
+        · simp only [insertNsKidH, HTree.value, hq, Bool.false_eq_true, if_false, fi_handlesList_cons,
             List.filter_append, ih]
       · have h1 : insertNsKidH p ns fresh (node h v kk :: ks) =
             node fresh (.namespace p ns) [] :: node h v kk :: ks := by
@@ -47,16 +47,16 @@ mutual
       · rw [if_pos hh]
         unfold nsEdit
         by_cases hv : v.isElement = true
-        · simp only [HTree.value, hv, if_true, Fmap.atKids, HTree.setKids, HTree.kids, handles_node,
+        · simp only [HTree.value, hv, if_true, Fmap.atKids, HTree.setKids, HTree.kids, fi_handles_node,
             List.filter_cons, handlesList_insertNsKidH_filter p ns fresh b hb ks]
         · simp only [HTree.value, hv, Bool.false_eq_true, if_false]
       · rw [if_neg hh]
-        simp only [handles_node, List.filter_cons, handlesList_nsEdit_filter e p ns fresh b hb ks]
+        simp only [fi_handles_node, List.filter_cons, handlesList_nsEdit_filter e p ns fresh b hb ks]
   theorem handlesList_nsEdit_filter (e p ns fresh b : Nat) (hb : b ≤ fresh) : ∀ ks : List HTree,
       (handlesList (mapAtList e (nsEdit p ns fresh) ks)).filter (· < b) = (handlesList ks).filter (· < b)
     | [] => rfl
     | k :: ks => by
-      simp only [mapAtList, handlesList_cons, List.filter_append, handles_nsEdit_filter e p ns fresh b hb k,
+      simp only [mapAtList, fi_handlesList_cons, List.filter_append, handles_nsEdit_filter e p ns fresh b hb k,
         handlesList_nsEdit_filter e p ns fresh b hb ks]
 end
 
@@ -93,7 +93,7 @@ mutual
         conv => rhs; unfold mapAt
         rw [if_pos rfl]
       · simp only [find?, if_neg hh] at hf
-        simp only [handles_node, List.nodup_cons] at hnd
+        simp only [fi_handles_node, List.nodup_cons] at hnd
         have hin : e ∈ handlesList ks := (findList?_sublist node ks S hf).subset he
         have hne : ¬ h = e := fun x => hnd.1 (x ▸ hin)
         unfold mapAt
@@ -104,14 +104,14 @@ mutual
     | [] => fun _ hf => by simp [findList?] at hf
     | k :: ks => by
       intro hnd hf
-      simp only [handlesList_cons, List.nodup_append] at hnd
+      simp only [fi_handlesList_cons, List.nodup_append] at hnd
       simp only [findList?] at hf
       cases hk : find? node k with
       | some t =>
         rw [hk] at hf
         simp only [Option.some.injEq] at hf
         subst hf
-        have hek : e ∈ handles k := (find?_sublist node k t hk).subset he
+        have hek : e ∈ handles k := (fa_find?_sublist node k t hk).subset he
         have hnk : node ∈ handles k := (find?_isSome_iff node k).mp (by rw [hk]; rfl)
         have h1 : e ∉ handlesList ks := fun x => hnd.2.2 e hek e x rfl
         have h2 : node ∉ handlesList ks := fun x => hnd.2.2 node hnk node x rfl
